@@ -231,13 +231,21 @@ def breaks_of(U):
     return out
 
 
-def params_of(U, extra=2):
-    """Every distinct knot plus ``extra`` points strictly inside each span."""
+NEAR = (F(1, 10 ** 7), F(1, 10 ** 12), F(1, 10 ** 20))
+
+
+def params_of(U, extra=2, near=()):
+    """Every distinct knot plus ``extra`` points strictly inside each span; with ``near`` also the points at those
+    distances on either side of every knot (inside the interval and inside the neighbouring span): they are not knots,
+    whatever a tolerance or a float image says."""
     bk = breaks_of(U)
     out = list(bk)
     for lo, hi in zip(bk[:-1], bk[1:]):
         for k in range(1, extra + 1):
             out.append(lo + (hi - lo) * F(k * 5 - 2, 5 * extra + 2))
+        for d in near:
+            if 4 * d < hi - lo:
+                out += [lo + d, hi - d]
     return sorted(out)
 
 
